@@ -197,7 +197,7 @@ P("C11", module="AJ.Props.C11All", extra=[("AJ.Props.C11", ["C11"]), ("AJ.Props.
                        S.JsonDocFSuite(cfg=G["tiny1"], n=400 if tier == "quick" else 40000), S.JsonDocFSuite(cfg=G["len1"], n=400 if tier == "quick" else 40000),
                        S.MpDocFSuite(cfg=DEF, n=1500 if tier == "quick" else 120000), S.MpDocFSuite(cfg=G["tiny1"], n=400 if tier == "quick" else 40000),
                        S.MpDocFSuite(cfg=G["len1"], n=400 if tier == "quick" else 40000), S.MpDocFSuite(cfg=G["tiny2"], n=400 if tier == "quick" else 40000)],
-  partial=["memory clause"])
+  partial=["memory clause: proved for the memory HELD at the end of the two runs (strings, nodes, slots); as a statement about the total of the allocator requests it is false on the code (two known findings), and the peak during the run is compared on the implementation only"])
 
 P("C12", module="AJ.Props.C12All", extra=[("AJ.Props.C12", ["C12"]), ("AJ.Props.C12Print", ["C12"])],
   level_text="Theorems: every integer literal in [-2^63, 2^64) with any number of leading zeros parses to exactly that integer and nothing else does; integers print digit-exact; "
